@@ -313,6 +313,62 @@ func runImpl(c *vf.Check, im impl) {
 		trans++
 		c.Nontrivial(fmt.Sprintf("%s|SetInt64|%d", im.name, iv))
 	}
+	// values made by every constructor (fresh, Zero, One, SetInt64, SetBytes of short inputs, Pick, Clone) as
+	// operands: internal representations differ from those of decoded values (shorter limb vectors, unreduced bytes)
+	var ctor []sv
+	okCtor := false
+	c.Case(im.name+": constructor-made operands", pk+"/ctor-setup", func(x *vf.Ctx) {
+		ctor = nil
+		add := func(name string, sc kyber.Scalar) {
+			if v := val(x, pk+"/ctor-setup", im, sc); v != nil {
+				ctor = append(ctor, sv{name, sc, new(big.Int).Mod(v, q)})
+			}
+		}
+		add("fresh", im.mk())
+		add("Zero()", junk().Zero())
+		add("One()", junk().One())
+		add("fresh.One()", im.mk().One())
+		for _, iv := range []int64{0, 1, -1, 5, 1 << 31, 1<<63 - 1, -1 << 63} {
+			add(fmt.Sprintf("SetInt64(%d)", iv), junk().SetInt64(iv))
+			add(fmt.Sprintf("fresh.SetInt64(%d)", iv), im.mk().SetInt64(iv))
+		}
+		for _, b := range [][]byte{{}, {1}, {0xff}, {1, 0, 0, 0, 0, 0, 0, 0, 0}, {0, 0, 0, 0, 0, 0, 0, 0, 1}, bytes.Repeat([]byte{0xff}, 8), bytes.Repeat([]byte{0xff}, 16), bytes.Repeat([]byte{0xa5}, 17)} {
+			add(fmt.Sprintf("SetBytes(%x)", b), junk().SetBytes(b))
+			add(fmt.Sprintf("fresh.SetBytes(%x)", b), im.mk().SetBytes(b))
+		}
+		add("Pick", im.mk().Pick(alpha.Stream("c02-ctor-pick")))
+		add("One().Clone()", im.mk().One().Clone())
+		add("Set(One())", junk().Set(im.mk().One()))
+		okCtor = !x.Failed()
+	})
+	if okCtor {
+		for _, a := range ctor {
+			for _, op := range un {
+				doUn(op, a)
+			}
+			for _, b := range append(append([]sv{}, coreV...), ctor...) {
+				for _, op := range bin {
+					doBin(op, a, b)
+					doBin(op, b, a)
+				}
+			}
+		}
+		c.Case(im.name+": Equal with constructor-made values", pk+"/Equal", func(x *vf.Ctx) {
+			for _, a := range ctor {
+				for _, b := range append(append([]sv{}, pool...), ctor...) {
+					c.Eval(2)
+					if a.s.Equal(b.s) != (a.v.Cmp(b.v) == 0) {
+						x.Failf(pk+"/Equal", "%s.Equal(%s)=%v, residues %s %s", a.name, b.name, a.s.Equal(b.s), a.v, b.v)
+						return
+					}
+					if b.s.Equal(a.s) != (a.v.Cmp(b.v) == 0) {
+						x.Failf(pk+"/Equal", "%s.Equal(%s)=%v, residues %s %s", b.name, a.name, b.s.Equal(a.s), b.v, a.v)
+						return
+					}
+				}
+			}
+		})
+	}
 	// SetBytes: every length 0..96 x patterns
 	bo := im.mk().ByteOrder()
 	ql := (q.BitLen() + 7) / 8
